@@ -8,6 +8,8 @@ runs = int(sys.argv[2]) if len(sys.argv) > 2 else 3000
 props = sys.argv[3:] or ["C12", "C13", "C14", "C15", "C16", "C19"]
 os.makedirs(out, exist_ok=True)
 known = "/verif/known_findings.txt"
+# the binary may have been built against a patched /repo (tools/mutants.py): always rebuild first
+subprocess.run(["/verif/check", "build"], stdout=subprocess.DEVNULL, stderr=subprocess.DEVNULL)
 def norm(s):
     s = re.sub(r"d\d+#\d+", "N", s)
     s = re.sub(r"#\d+", "N", s)
